@@ -24,6 +24,7 @@ import (
 	"sort"
 	"strconv"
 	"strings"
+	"sync"
 	"testing"
 	"time"
 
@@ -473,6 +474,8 @@ func TestZZVerif(t *testing.T) {
 		per = 5
 	}
 	switch prop {
+	case "C09":
+		zzC09(env, rng, tier)
 	case "C14":
 		zzC14(env, rng, per, variant)
 	case "C15":
@@ -1285,5 +1288,142 @@ func zzC11(t *testing.T, res *zzResult, rng *rand.Rand, work, tier string) {
 			}
 		}
 		res.Nontrivial[fmt.Sprintf("%d|%v|%d", bin, chunkOf, nf)]++
+	}
+}
+
+// zzC09 - C09 at the HTTP boundary: "every part whose reception was acknowledged stays on
+// record ... even when parts of one file arrive concurrently on several connections", here
+// for a source the receiver has never heard of: the first parts of its first file arrive at
+// the same moment on K connections.  Oracle: once every request has been answered, each
+// part that was answered 200 is in the receiver's listing of partly received files (same
+// hash), unless the file has been completed and delivered.
+func zzC09(e *zzEnv, rng *rand.Rand, tier string) {
+	res := e.res
+	rounds := 12
+	if tier == "thorough" {
+		rounds = 150
+	}
+	if len(e.sources) > 0 {
+		rounds = 1 // only one configured source has never been used: team/alpha
+	}
+	for i := 0; i < rounds; i++ {
+		res.Evaluations++
+		source := fmt.Sprintf("nc%d-%d", i, rng.Intn(1000))
+		if len(e.sources) > 0 {
+			source = "team/alpha"
+		}
+		k := 2 + rng.Intn(7)
+		l := 1 + rng.Intn(3000)
+		whole := rng.Intn(3) != 0 // all parts (the file completes) or all but one (it stays partial)
+		data := make([]byte, k*l)
+		for j := range data {
+			data[j] = byte(rng.Intn(256))
+		}
+		name := fmt.Sprintf("burst/f%d.dat", i)
+		hash := zzMD5(data)
+		type sent struct {
+			B, E   int
+			Status int
+		}
+		parts := make([]*sent, 0, k)
+		for j := 0; j < k; j++ {
+			if !whole && j == k-1 {
+				break
+			}
+			parts = append(parts, &sent{B: j * l, E: (j + 1) * l})
+		}
+		start := make(chan struct{})
+		var wg sync.WaitGroup
+		for _, pt := range parts {
+			wg.Add(1)
+			go func(pt *sent) {
+				defer wg.Done()
+				meta := fmt.Sprintf(`[{"n":%q,"r":"","p":"","f":%q,"t":"1700000000+0","s":%d,"b":%d,"e":%d}]`, name, hash, len(data), pt.B, pt.E)
+				r := &zzReq{Route: "data", Method: "PUT", URL: "/data?v=1", Headers: map[string]string{"X-STS-SrcName": source, "X-STS-MetaLen": strconv.Itoa(len(meta)), "X-STS-Sep": "/"}}
+				if e.attKey != "" {
+					r.Headers["X-STS-Key"] = e.attKey
+				}
+				r.body = append([]byte(meta), data[pt.B:pt.E]...)
+				<-start
+				pt.Status, _ = e.do(r)
+			}(pt)
+		}
+		close(start)
+		wg.Wait()
+		acked := 0
+		for _, pt := range parts {
+			res.Counters[fmt.Sprintf("burst_status_%d", pt.Status)]++
+			if pt.Status == 200 {
+				acked++
+			}
+		}
+		res.Counters["burst_parts_acknowledged"] += int64(acked)
+		res.Counters["first_contact_bursts"]++
+		if acked == 0 {
+			continue
+		}
+		sc := map[string]any{"source": source, "name": name, "size": len(data), "parts": parts}
+		mangled := strings.ReplaceAll(source, "/", "--")
+		final := filepath.Join(e.recv, "final", mangled, filepath.FromSlash(name))
+		decided := false
+		for try := 0; try < 100 && !decided; try++ {
+			if b, err := os.ReadFile(final); err == nil {
+				decided = true
+				res.Counters["burst_files_delivered"]++
+				if !bytes.Equal(b, data) {
+					e.viol(i, "complete-only-when-covered", "http-first-contact-delivered-other-bytes", fmt.Sprintf("%s of new source %s: delivered with content that differs from what was sent in %d concurrent parts", name, source, len(parts)), &zzReq{Route: "burst", Meta: fmt.Sprint(sc)})
+				}
+				break
+			}
+			lr := &zzReq{Route: "partials", Method: "GET", URL: "/partials?v=1", Headers: map[string]string{"X-STS-SrcName": source}}
+			if e.attKey != "" {
+				lr.Headers["X-STS-Key"] = e.attKey
+			}
+			st, body := e.do(lr)
+			var listing []struct {
+				Name  string `json:"path"`
+				Hash  string `json:"hash"`
+				Parts []struct {
+					B int `json:"b"`
+					E int `json:"e"`
+				} `json:"parts"`
+			}
+			if st == 200 && json.Unmarshal(body, &listing) == nil {
+				for _, f := range listing {
+					if f.Name != name || f.Hash != hash {
+						continue
+					}
+					// the file is on record: every acknowledged part must be there
+					decided = true
+					res.Counters["burst_files_listed"]++
+					for _, pt := range parts {
+						if pt.Status != 200 {
+							continue
+						}
+						have := false
+						for _, r := range f.Parts {
+							if r.B <= pt.B && pt.E <= r.E {
+								have = true
+							}
+						}
+						if !have {
+							e.viol(i, "acknowledged-parts-stay-on-record", "http-first-contact-ack-dropped", fmt.Sprintf("%s of new source %s: part [%d,%d) was answered 200 (one of %d parts sent at the same moment on separate connections, first contact of that source) but the receiver's listing holds only %v", name, source, pt.B, pt.E, len(parts), f.Parts), &zzReq{Route: "burst", Meta: fmt.Sprint(sc)})
+							break
+						}
+					}
+				}
+			}
+			if !decided {
+				time.Sleep(50 * time.Millisecond)
+			}
+		}
+		if !decided {
+			res.Inconclusive++
+			res.InconcNotes = append(res.InconcNotes, fmt.Sprintf("burst %d: %s neither delivered nor listed after 5 s", i, name))
+		}
+		res.Nontrivial[fmt.Sprintf("burst|k=%d|whole=%v|acked=%d", len(parts), whole, acked)]++
+		if len(res.Samples) < 3 {
+			res.Samples = append(res.Samples, &zzReq{Route: "burst", Meta: fmt.Sprint(sc)})
+		}
 	}
 }
